@@ -3,7 +3,6 @@ package yqlib
 import (
 	"fmt"
 	"math"
-	"strconv"
 	"strings"
 )
 
@@ -64,11 +63,11 @@ func moduloScalars(target *CandidateNode, lhs *CandidateNode, rhs *CandidateNode
 		target.Kind = ScalarNode
 		target.Style = lhs.Style
 
-		lhsNum, err := strconv.ParseFloat(lhs.Value, 64)
+		lhsNum, err := parseSortableNumber(lhs)
 		if err != nil {
 			return err
 		}
-		rhsNum, err := strconv.ParseFloat(rhs.Value, 64)
+		rhsNum, err := parseSortableNumber(rhs)
 		if err != nil {
 			return err
 		}
